@@ -518,6 +518,14 @@ func throttle(r *rep.Report, rng *rand.Rand, n int) {
 		ob, _ := core.NewOutboundBreaker(limit, interval)
 		b := &probe{Breaker: ob, first: map[int64]time.Time{}, last: map[int64]time.Time{}}
 		t, _ := core.NewThrottle(attempts, pendingLimit, pause, b)
+		// the Disable switches: on the throttle's breaker, on the throttle itself, or neither
+		mode := []string{"", "", "breaker-disabled", "throttle-disabled"}[run%4]
+		switch mode {
+		case "breaker-disabled":
+			ob.Disable(true)
+		case "throttle-disabled":
+			t.Disable(true)
+		}
 		r.Journal(rep.J{"throttle": run, "limit": limit, "pendingLimit": pendingLimit, "submitters": submitters})
 		runs := make([]int64, submitters)
 		res := make([]string, submitters)
@@ -566,7 +574,7 @@ func throttle(r *rep.Report, rng *rand.Rand, n int) {
 		sw.Wait()
 		pend, _ := t.Pending()
 		overflowed := false
-		wit := rep.J{"kind": "throttle", "limit": limit, "interval_ms": interval.Milliseconds(), "pendingLimit": pendingLimit, "attempts": attempts, "submitters": submitters, "max_pending_seen": maxPending, "pending_after": pend}
+		wit := rep.J{"kind": "throttle", "disable_switch": mode, "limit": limit, "interval_ms": interval.Milliseconds(), "pendingLimit": pendingLimit, "attempts": attempts, "submitters": submitters, "max_pending_seen": maxPending, "pending_after": pend}
 		for s := range res {
 			if res[s] == "overflow" {
 				overflowed = true
@@ -579,7 +587,10 @@ func throttle(r *rep.Report, rng *rand.Rand, n int) {
 			}
 		}
 		r.Case(overflowed, fmt.Sprint("throttle", run, limit, pendingLimit, submitters))
-		if maxPending > int64(pendingLimit)+1 {
+		if mode == "throttle-disabled" {
+			// a disabled throttle does not limit: only at-most-once and the return of Pending() to 0 are judged
+			r.Count("throttle_runs_with_throttle_disabled", 1)
+		} else if maxPending > int64(pendingLimit)+1 {
 			r.Violate("", fmt.Sprintf("Pending() reached %d, the limit is %d (+1)", maxPending, pendingLimit), wit)
 		}
 		if pend != 0 {
@@ -589,7 +600,7 @@ func throttle(r *rep.Report, rng *rand.Rand, n int) {
 		waiting := b.maxWaiting()
 		wit["max_waiting_observed"] = waiting
 		r.Count("throttle_max_waiting_observed_total", waiting)
-		if waiting > pendingLimit+1 {
+		if waiting > pendingLimit+1 && mode != "throttle-disabled" {
 			r.Violate("", fmt.Sprintf("%d submissions were waiting at the same instant, the pending limit is %d (+1)", waiting, pendingLimit), wit)
 		}
 		r.Count("throttle_submissions", submitters)
